@@ -41,9 +41,13 @@ class Sequence:
         for job1, job2 in zip(self.jobs, self.jobs[1:]):
             job2.requires(job1)
         # any requirements specified in the constructor
-        # actually apply to the first item
+        # actually apply to the first item; when there is no job yet,
+        # keep them for the job that comes first later on, see append()
+        self._pending_required = []
         if self.jobs:
             self.jobs[0].requires(required)
+        else:
+            self._pending_required.append(required)
         # make all jobs belong in the scheduler if provided
         self.scheduler = scheduler
         if self.scheduler is not None:
@@ -84,6 +88,11 @@ class Sequence:
         # and attach them behind the jobs already in the sequence
         if self.jobs:
             new_jobs[0].requires(self.jobs[-1])
+        else:
+            # this is the first job of the sequence: it inherits
+            # the requirements received while the sequence was empty
+            new_jobs[0].requires(self._pending_required)
+            self._pending_required = []
         self.jobs += new_jobs
         if self.scheduler is not None:
             self.scheduler.update(new_jobs)
@@ -98,6 +107,7 @@ class Sequence:
 
         """
         if not self.jobs:
-            # warning ?
+            # no first job yet, see append()
+            self._pending_required.extend(requirements)
             return
         self.jobs[0].requires(*requirements)
